@@ -7,7 +7,7 @@ from typing import Any, ClassVar
 
 from tree_sitter import Node
 
-from nix_manipulator.expressions.comment import Comment
+from nix_manipulator.expressions.comment import Comment, MultilineComment
 from nix_manipulator.expressions.expression import NixExpression, TypedExpression
 from nix_manipulator.expressions.trivia import (
     gap_between,
@@ -118,6 +118,15 @@ class Parenthesis(TypedExpression):
         trailing_layout = layout_from_gap(self.trailing_gap).model_copy(
             update={"blank_line": self.trailing_blank_line}
         )
+        if not leading_layout.on_newline and any(
+            isinstance(item, Comment) and not isinstance(item, MultilineComment)
+            for item in self.value.before
+        ):
+            # A value that acquired a leading `#` comment after parsing (its
+            # `let … in` wrapper was removed) cannot stay glued to `(`.
+            leading_layout = leading_layout.model_copy(
+                update={"on_newline": True, "indent": None}
+            )
         multiline = leading_layout.on_newline or trailing_layout.on_newline
         indentation = " " * indent if multiline else ("" if inline else " " * indent)
 
